@@ -98,7 +98,8 @@ def g_add_abs(rng, seq):
     ch = rng.choice(_channels(seq))
     if kind < 0.55:
         # a well-formed pair is added by two events; single messages are legal too (normalise cleans up)
-        return {"msg": {"t": "note_on", "ch": ch, "time": t, "note": rng.randrange(30, 100), "velocity": rng.randrange(1, 128)}}
+        return {"msg": {"t": "note_on", "ch": ch, "time": t, "note": rng.randrange(30, 100),
+                        "velocity": rng.randrange(1, 128) if rng.random() < 0.93 else 0}}
     if kind < 0.8:
         return {"msg": {"t": "note_off", "ch": ch, "time": t, "note": rng.randrange(30, 100)}}
     if kind < 0.9:
@@ -123,7 +124,8 @@ def g_add_rel(rng, seq):
         return {"msg": {"t": "wait", "ch": ch, "time": rng.choice([1, 3, 6, 12, 24, rng.randrange(1, 60), rng.choice([6, 0, 2000])])},
                 "index": idx}
     if kind < 0.65:
-        return {"msg": {"t": "note_on", "ch": ch, "note": rng.randrange(30, 100), "velocity": rng.randrange(1, 128)}, "index": idx}
+        return {"msg": {"t": "note_on", "ch": ch, "note": rng.randrange(30, 100),
+                        "velocity": rng.randrange(1, 128) if rng.random() < 0.93 else 0}, "index": idx}
     if kind < 0.85:
         return {"msg": {"t": "note_off", "ch": ch, "note": rng.randrange(30, 100)}, "index": idx}
     if kind < 0.92:
@@ -612,7 +614,7 @@ def resolve_edit(msg, view, field_raw, value_raw, prev_time=None, next_time=None
     if f == "note":
         v = [60, 62][k % 2] if tiny else 30 + value_raw % 70
     elif f == "velocity":
-        v = [64, 100][k % 2] if tiny else 1 + value_raw % 127
+        v = [64, 100, 0, 100][k % 4] if tiny else 1 + value_raw % 127
     elif f == "channel":
         v = k % 2 if tiny else value_raw % 4
     elif f == "numerator":
